@@ -7,7 +7,7 @@ import Driver.Util
            from float data with scale factors) or `-` (file absent), in the order
            a.nii a.nii.gz b.nii a.img a.mgh a.mgz s.img n.nii c.img.gz a.nii.bz2 b.nii.zst;
            file i starts with data id i, affine id i, tag 0; s.img is an SPM2 Analyze pair, n.nii a NIfTI-2 file
-    ops  : comma separated  L<path 0-9a><mmap 0|1|2>[@spelling] | F | F4 | U | E<k> | A<k> | H<k> | D<dt> |
+    ops  : comma separated  L<path 0-9a><mmap 0|1|2|3|4>[@spelling] | F | F4 | U | E<k> | A<k> | H<k> | D<dt> |
            S<path>[@spelling] | B
   output: one token per op, then `live=…` and `fs=…` (nothing after the first `BAD`, also not after `live=BAD`).
 -/
@@ -55,6 +55,8 @@ def parseOp? (s0 : String) : Option Op :=
     | some p, "0" => some (.load p false)
     | some p, "1" => some (.load p true)      -- mmap=True
     | some p, "2" => some (.load p true)      -- mmap='r'
+    | some p, "3" => some (.load p true)      -- mmap=True, keep_file_open=True
+    | some p, "4" => some (.load p false)     -- mmap=False, keep_file_open=True
     | _, _ => none
   else if s.startsWith "S" ∧ s.length = 2 then (parsePath? (s.drop 1).toString).map Op.save
   else if s.startsWith "E" then ((s.drop 1).toString.toNat?).map Op.edit
